@@ -1,5 +1,5 @@
 (* C06 — scaling direction and taint rate follow the utilisation bands.  Theorems only. *)
-From Esc Require Import Examples proofs.ScanTaint.
+From Esc Require Import Examples proofs.ScanTaint proofs.ScanRun proofs.ScanRunTheorems.
 
 (* For every scan with non-negative rates slow <= fast (what validation admits) and a non-negative minimum: when the
    group is unlocked, within its node-count bounds, not below its minimum and the percentages are defined, with
@@ -35,3 +35,9 @@ Example c06_ex :
                  existsb is_cloud_increase (r_calls (ex_scan ex_opts gstate0 m)))) [1000; 3000; 4800; 24000]
   = [(BLow, 1%nat, false); (BMid, 1%nat, false); (BQuiet, 0%nat, false); (BUp, 0%nat, true)].
 Proof. vm_compute. reflexivity. Qed.
+
+(* over a whole RunOnce: the checker evaluated by the correspondence holds of every group journal the model produces
+   (group names and cloud group names pairwise distinct) *)
+Theorem c06_run_once : forall s, wf_groups s -> rates_ok s -> for_groups check_C06_group s (run_journals s) = true.
+Proof. exact run_passes_C06. Qed.
+Print Assumptions c06_run_once.
